@@ -7,6 +7,7 @@
 import Frost.Model.Refresh
 import Frost.Proofs.Honest
 import Frost.Props.C06
+import Frost.Proofs.RefreshDkg
 
 set_option linter.unusedSectionVars false
 
@@ -89,6 +90,27 @@ theorem refreshDkgShares_rejects_threshold_change (S : Suite F E) (sp : Round2Se
     (oldKp : KeyPackage F E) (h : sp.minSigners ≠ oldKp.minSigners) :
     refreshDkgShares S sp r1 r2 oldPkp oldKp = .error .InvalidMinSigners := by
   unfold refreshDkgShares; simp [h]
+
+/-- **The distributed procedure re-links the packages too**: every successful
+    `refresh_dkg_shares` (arbitrary contents of the sender slots, as in C09) on a round-one map
+    with distinct senders other than the participant, commitments of the participant's own
+    length, honest own refresh state and consistent OLD key material returns a key package with
+    the same identifier and threshold, `verifying_share = signing_share • G` = its entry in the
+    refreshed public key package, and the OLD group key in both packages; the new signing share
+    is the old one plus the own and the received refreshing shares. -/
+theorem refreshDkgShares_ok_consistent (S : Suite F E) (sp : Round2Secret F E)
+    (r1 : List (F × Round1Package F E)) (r2 : List (F × F)) (oldPkp : PublicKeyPackage F E)
+    (oldKp : KeyPackage F E) (kp : KeyPackage F E) (pkp : PublicKeyPackage F E)
+    (h : refreshDkgShares S sp r1 r2 oldPkp oldKp = .ok (kp, pkp))
+    (hk1 : (SMap.keys r1).Nodup) (hself : sp.id ∉ SMap.keys r1)
+    (hlen : ∀ ip ∈ r1, ip.2.commitment.length = sp.commitment.length)
+    (hown : sp.secretShare • S.G = vssR ((0 : E) :: sp.commitment) sp.id)
+    (hold : SMap.get? oldPkp.vshares sp.id = some (oldKp.share • S.G)) :
+    kp.id = sp.id ∧ kp.vshare = kp.share • S.G ∧ kp.vk = oldPkp.vk ∧ pkp.vk = oldPkp.vk ∧
+    kp.minSigners = oldKp.minSigners ∧ pkp.minSigners = some oldKp.minSigners ∧
+    kp.share = ((r2.map (·.2)).sum + sp.secretShare) + oldKp.share ∧
+    SMap.get? pkp.vshares sp.id = some kp.vshare :=
+  Frost.refreshDkgShares_ok_consistent S sp r1 r2 oldPkp oldKp kp pkp h hk1 hself hlen hown hold
 
 /-- **Any sequence of refreshes preserves the sharing**: after refreshes with zero-constant
     polynomials `r₁, r₂, …` (each with fewer than `|S|` non-constant coefficients), any
